@@ -96,3 +96,67 @@ def loop(n: int, verdicts: List[int]) -> int:
     if any(len(v) == 0 for _, v in out):
         return 2
     return 1
+
+
+def _all(t, pos):
+    return _M(t, pos, len(t))
+
+
+def _one(t, pos):
+    return _M(t, pos, pos + 1)
+
+
+def passthru(text: str, whole: bool) -> int:
+    """
+    pre: len(text) <= 3
+    post: _ != 2
+    """
+    # a str input reaches the scanning loop unchanged: with a rule that takes everything (or one
+    # character at a time) the token values concatenate to exactly the given text
+    lx = lexer.Lexer()
+    lx._keywords = []
+    lx._SQL_REGEX = [(_all if whole else _one, tokens.Name)]
+    try:
+        out = list(lx.get_tokens(text))
+    except Exception:
+        return 2
+    got = ''.join(v for _, v in out)
+    if got != text:
+        return 2
+    if whole and len(out) != (1 if len(text) else 0):
+        return 2
+    if not whole and len(out) != len(text):
+        return 2
+    return 1
+
+
+def interleave(sched: List[bool]) -> int:
+    """
+    pre: len(sched) == 6
+    post: _ != 2
+    """
+    # two token streams of ONE lexer instance advanced in an arbitrary order: each must still
+    # yield exactly its own text (no scanning state may live on the instance)
+    lx = lexer.Lexer()
+    lx._keywords = []
+    lx._SQL_REGEX = [(_one, tokens.Name)]
+    ta, tb = 'abc', 'xyzw'
+    ga, gb = lx.get_tokens(ta), lx.get_tokens(tb)
+    oa, ob = [], []
+    try:
+        for s in sched:
+            if s:
+                nxt = next(ga, None)
+                if nxt is not None:
+                    oa.append(nxt[1])
+            else:
+                nxt = next(gb, None)
+                if nxt is not None:
+                    ob.append(nxt[1])
+        oa += [v for _, v in ga]
+        ob += [v for _, v in gb]
+    except Exception:
+        return 2
+    if ''.join(oa) != ta or ''.join(ob) != tb:
+        return 2
+    return 1
